@@ -299,6 +299,19 @@ func firstLine(s string) string {
 // normMsg strips numbers and paths so that messages can be part of signatures.
 func normMsg(s string) string {
 	s = firstLine(s)
+	// bucket paths under the data root become <path> (keeps WAL file names, which
+	// are handled by the digit folding below)
+	for {
+		i := strings.Index(s, dataRoot+"/")
+		if i < 0 || strings.HasPrefix(s[i:], dataRoot+"/WALFile") {
+			break
+		}
+		j := i
+		for j < len(s) && s[j] != ' ' && s[j] != ':' && s[j] != ',' && s[j] != '"' {
+			j++
+		}
+		s = s[:i] + "<path>" + s[j:]
+	}
 	var b strings.Builder
 	lastDigit := false
 	for _, c := range s {
